@@ -53,7 +53,9 @@ MANIFEST = dict(
               "correspondence by vm_compute + independent reference recogniser",
 )
 
-THEOREMS = ["C10_roundtrip", "C10_roundtrip_stmt", "C10_precedence", "C10_parens", "C10_fuel", "C10_sound_core",
+THEOREMS = ["C10_roundtrip", "C10_roundtrip_stmt", "C10_roundtrip_type", "C10_roundtrip_dexpr",
+            "C10_roundtrip_def", "C10_roundtrip_program",
+            "C10_precedence", "C10_parens", "C10_fuel", "C10_sound_core",
             "C10_characterised",
             "C10_optable", "C10_lex_tables"]
 ALLOWED_AXIOMS = []
